@@ -34,7 +34,7 @@ def get_adapter(prop):
 BUDGET = {
     # property: tier: (runs, soft deadline seconds)
     'C15': {'quick': (24000, 50), 'thorough': (1500000, 780)},
-    'C20': {'quick': (6000, 75), 'thorough': (400000, 1020)},
+    'C20': {'quick': (4500, 70), 'thorough': (400000, 1020)},
 }
 
 
@@ -64,16 +64,17 @@ def cmd_replay(prop, path, quiet):
     plan = doc['plan'] if 'plan' in doc else doc
     ad.prepare_replay() if hasattr(ad, 'prepare_replay') else None
     r = ad.execute_full(plan)
-    want = doc.get('violation')
-    v = r['violation']
-    if v is None:
+    want = doc.get('finding_key')
+    vs = r.get('violations') or []
+    if not vs:
         print('replay: no violation (property held on this plan)')
         return 0
-    same = want is None or (v['oracle'] == want['oracle'])
+    hit = [x for x in vs if want is None or x['key'] == want]
+    v = hit[0] if hit else vs[0]
     if not quiet:
         print(json.dumps(v, indent=1, default=str)[:4000])
-    print('REPRODUCED oracle=%s step=%s digest=%s' % (v['oracle'], v['step'], r['digest'][:16]) if same
-          else 'DIFFERENT violation oracle=%s (file says %s)' % (v['oracle'], want['oracle']))
+    print('REPRODUCED key=%s step=%s digest=%s' % (v['key'], v.get('step'), r['digest'][:16]) if hit
+          else 'DIFFERENT violation key=%s (file says %s)' % (v['key'], want))
     print('VIOLATION property=%s replay=%s' % (prop, path))
     return 1
 
@@ -87,7 +88,7 @@ def cmd_digest(prop, start, count, tier):
     for i in range(start, start + count):
         plan = ad.make_plan(core.base_seed(), i, tier)
         r = ad.execute_isolated(plan)
-        out.append(core.sha([core.sha(plan), r['digest'], r['violation'] is not None])[:24])
+        out.append(core.sha([core.sha(plan), r['digest'], sorted(x['key'] for x in r.get('violations') or [])])[:24])
     print('DIGESTS ' + json.dumps(out))
     return 0
 
@@ -96,15 +97,22 @@ def determinism_selftest(prop, tier, count, in_process_digests=None):
     """Same runs, fresh interpreter, different PYTHONHASHSEED: event-log digests must be equal."""
     import subprocess
     res = {}
+    procs = {}
     for hs in ('0', '4242'):
         env = dict(os.environ)
         env.pop('KNEESIM_PINNED', None)
         env['KNEESIM_HASHSEED'] = hs
-        p = subprocess.run([sys.executable, os.path.abspath(__file__), prop, '--digest', '0', str(count), '--tier', tier],
-                           env=env, capture_output=True, text=True, timeout=900)
-        line = [l for l in p.stdout.splitlines() if l.startswith('DIGESTS ')]
+        procs[hs] = subprocess.Popen([sys.executable, os.path.abspath(__file__), prop, '--digest', '0', str(count), '--tier', tier],
+                                     env=env, stdout=subprocess.PIPE, stderr=subprocess.PIPE, text=True)
+    for hs, p in procs.items():
+        try:
+            so, se = p.communicate(timeout=1800)
+        except subprocess.TimeoutExpired:
+            p.kill()
+            raise core.HarnessError('digest subprocess timed out')
+        line = [l for l in so.splitlines() if l.startswith('DIGESTS ')]
         if p.returncode != 0 or not line:
-            raise core.HarnessError('digest subprocess failed: ' + p.stdout[-500:] + p.stderr[-1500:])
+            raise core.HarnessError('digest subprocess failed: ' + so[-500:] + se[-1500:])
         res[hs] = json.loads(line[0][8:])
     ok = res['0'] == res['4242']
     diff = [i for i, (a, b) in enumerate(zip(res['0'], res['4242'])) if a != b]
@@ -121,6 +129,9 @@ def cmd_check(prop, tier, nruns_override=None, workers=None, selftest=True):
     if nruns_override:
         nruns = nruns_override
     workers = workers or min(16, os.cpu_count() or 1)
+    kf = runner.load_known_findings()
+    known = {k['key']: k for k in kf.get('known', []) if k.get('property') == prop}
+    runner.KNOWN_KEYS = frozenset(known)
     ad.prepare(tier)
     agg = runner.run_batch(ad, tier, base, nruns, workers, deadline)
     det = None
@@ -135,47 +146,47 @@ def cmd_check(prop, tier, nruns_override=None, workers=None, selftest=True):
             print('HARNESS-ERROR run %s\n%s' % (h['i'], h['trace']))
         write_evidence(prop, tier, base, ad, agg, det, [], [], time.time() - t0, status='harness_error')
         return 2
-    # violations: minimise, write replay, confirm in a fresh interpreter, classify against known findings
-    kf = runner.load_known_findings()
-    known = [k for k in kf.get('known', []) if k.get('property') == prop]
+    # violations: minimise, write replay, confirm in a fresh interpreter; known findings were classified by key
     reported = []
-    known_hits = {}
     seen_keys = set()
     for v in agg['violations']:
-        key = ad.finding_key(v['violation'], v['plan'])
-        match = [k for k in known if k['key'] == key]
-        if match:
-            known_hits.setdefault(key, {'entry': match[0], 'count': 0, 'i': v['i']})
-            known_hits[key]['count'] += 1
-            continue
+        key = v['violation']['key']
         if key in seen_keys or len(reported) >= 3:
             continue
         seen_keys.add(key)
         small = ad.shrink(v['plan'], v['violation'], time.time() + 60)
         r = ad.execute_isolated(small)
-        if r['violation'] is None or r['violation']['oracle'] != v['violation']['oracle']:
+        hit = [x for x in r['violations'] if x['key'] == key]
+        if not hit:
             small = v['plan']
             r = ad.execute_isolated(small)
+            hit = [x for x in r['violations'] if x['key'] == key]
+        if not hit:
+            print('HARNESS-ERROR violation %s of run %d did not reproduce when re-executed in isolation' % (key, v['i']))
+            write_evidence(prop, tier, base, ad, agg, det, [], [], time.time() - t0, status='harness_error')
+            return 2
         rs = core.run_seed(prop, base, v['i'])
         os.makedirs(os.path.join(core.OUT_DIR, 'replays'), exist_ok=True)
-        path = os.path.join(core.OUT_DIR, 'replays', '%s-%d.json' % (prop, rs))
+        path = os.path.join(core.OUT_DIR, 'replays', '%s-%d-%s.json' % (prop, rs, core.sha(key)[:8]))
         core.jdump({'property': prop, 'base_seed': base, 'run_index': v['i'], 'run_seed': rs, 'finding_key': key,
-                    'violation': r['violation'], 'original_steps': len(v['plan'].get('steps', [])),
+                    'violation': hit[0], 'original_size': len(json.dumps(v['plan'])), 'minimised_size': len(json.dumps(small)),
                     'readable': ad.describe(small), 'plan': small}, path)
         ok, out = runner.replay_in_fresh_interpreter(prop, path)
         if not ok:
             print('HARNESS-ERROR violation of %s (run %d) did not reproduce in a fresh interpreter:\n%s' % (prop, v['i'], out))
             write_evidence(prop, tier, base, ad, agg, det, [], [], time.time() - t0, status='harness_error')
             return 2
-        reported.append({'i': v['i'], 'key': key, 'path': path, 'violation': r['violation']})
-    for key, h in sorted(known_hits.items()):
-        print('KNOWN-FINDING: property=%s %s (%d runs hit it; first run index %d)' % (prop, h['entry']['what'], h['count'], h['i']))
+        reported.append({'i': v['i'], 'key': key, 'path': path, 'violation': hit[0]})
+    known_hits = agg['known']
+    for key in sorted(known_hits):
+        print('KNOWN-FINDING: property=%s %s (%d runs hit it; first run index %d)' % (
+            prop, known[key]['what'], known_hits[key][0], known_hits[key][1]))
     for d in agg['diagnostics'][:3]:
         print('DIAGNOSTIC property=%s run=%s %s' % (prop, d['i'], json.dumps(d['diag'], default=str)[:300]))
     for r in reported:
         print('violation detail: run index %d key=%s %s' % (r['i'], r['key'], json.dumps(r['violation'], default=str)[:600]))
         print('VIOLATION property=%s replay=%s' % (prop, r['path']))
-    write_evidence(prop, tier, base, ad, agg, det, reported, sorted(known_hits), time.time() - t0)
+    write_evidence(prop, tier, base, ad, agg, det, reported, {k: known_hits[k][0] for k in sorted(known_hits)}, time.time() - t0)
     print('%s %s: %d runs in %.1fs (%d workers), %d distinct non-trivial, %d violations, %d known findings' % (
         prop, tier, agg['n'], time.time() - t0, workers, len(agg['nontrivial']), len(reported), len(known_hits)))
     return 1 if reported else 0
